@@ -466,6 +466,10 @@ def run(ctx):
     from .persist import rule_exit_persists, rule_close_writes
     rule_exit_persists(ctx, r7, ("spec hashes",))
     rule_close_writes(ctx, r7, ("spec hashes",))
+    # "...or touched": `gwf touch` records the current spec of every target of the cone, also of those whose files were in order already
+    from .evalhelpers import cached_witness, report_witness, touch_command_witness
+    report_witness(r7, "src/gwf/plugins/touch.py::touch::hashes", "src/gwf/plugins/touch.py:1", cached_witness(ctx, "touch_command_witness", touch_command_witness),
+                   "`gwf touch` records the spec hash of every target of the selected cone", select=lambda d: "spec hash" in d)
     # status mapping: completed <=> not should_run for UNKNOWN/COMPLETED backend states with no pending deps comes from the C02 table
     r8 = ctx.rule("R8", "no job / finished job and no pending dependency: shown completed and not submitted iff should_run is False")
     from .schedtable import rule_decision_table
